@@ -205,13 +205,13 @@ def grid(prop, quick, seed=0):
     rnd = random.Random(seed)
     jobs = []
     inputs = ['hex=']
-    inputs += ['hex=%02x' % b for b in range(0, 256, 5 if quick else 1)]
+    inputs += ['hex=%02x' % b for b in range(0, 256, 5 if quick else 2)]
     if not quick:
-        inputs += ['hex=%02x%02x' % (a, b) for a in range(0, 256, 7) for b in range(0, 256, 11)]
-    for _ in range(64 if quick else 4096):
+        inputs += ['hex=%02x%02x' % (a, b) for a in range(0, 256, 17) for b in range(0, 256, 23)]
+    for _ in range(64 if quick else 512):
         n = rnd.choice([3, 8, 32, 128, 512, 2048])
         inputs.append('hex=' + bytes(rnd.getrandbits(8) for _ in range(n)).hex())
-    inputs += ['seed=%d' % s for s in range(64 if quick else 4096)]
+    inputs += ['seed=%d' % s for s in range(64 if quick else 512)]
     ranges = ['', 'min=0 max=0', 'min=5 max=3', 'min=1 max=2', 'min=600 max=900']
     if prop in ('C01', 'C02', 'C11', 'C09'):
         ranges += ['min=3000 max=3001']
@@ -381,12 +381,32 @@ def find(prop, quick=True, seed=0, limit=None):
         rest = [j for j in jobs if j not in set(special)]
         random.Random(seed).shuffle(rest)
         jobs = special + rest[:max(0, limit - len(special))]
-    CH = 2000
-    for k in range(0, len(jobs), CH):
-        for job, line in run_jobs(jobs[k:k + CH]):
-            for e in findings(job, line):
-                if e.startswith(prop):
-                    return job, line, e
+    CH = 400
+    chunks = [(prop, jobs[k:k + CH]) for k in range(0, len(jobs), CH)]
+    nproc = max(1, min(int(os.environ.get('VERIF_FINDER_PROCS', '12')), len(chunks)))
+    if nproc == 1:
+        for c in chunks:
+            r = _find_chunk(c)
+            if r:
+                return r
+        return None
+    import multiprocessing
+    # chunks are examined in order (imap), so the reported input does not depend on scheduling
+    with multiprocessing.Pool(nproc) as pool:
+        for r in pool.imap(_find_chunk, chunks):
+            if r:
+                pool.terminate()
+                return r
+    return None
+
+
+def _find_chunk(arg):
+    """Run one chunk of jobs on the real library and check the outputs; first violation of `prop` or None."""
+    prop, chunk = arg
+    for job, line in run_jobs(chunk):
+        for e in findings(job, line):
+            if e.startswith(prop):
+                return job, line[:20000], e
     return None
 
 
